@@ -150,6 +150,22 @@ def r02a(ctx, repo, T):
                         hi, lo = (v.args[1], v.args[2]) if kind == "gt" else (v.args[2], v.args[1])
                         ctx.check(_is_recip(hi, Tn) and _is_one(lo), "R02a", fi, s, "per-row factor is 1/T where T > 1 else 1", "rescale factor `%s` is not (1/%s where %s > 1, else 1)" % (ast.unparse(v), Tn, Tn))
         if factor is None:
+            # a decision taken for the whole array from one element / an aggregate of the totals is a violation in its own right
+            for s_ in astq.stmts_in_order(fi.node):
+                tests = []
+                if isinstance(s_, ast.If):
+                    tests.append(s_.test)
+                for x in ast.walk(s_) if isinstance(s_, ast.Assign) else []:
+                    if isinstance(x, ast.IfExp):
+                        tests.append(x.test)
+                for t_ in tests:
+                    mentions = any(isinstance(x, ast.Name) and x.id == Tn for x in ast.walk(t_))
+                    plain = _cmp_gt_one(t_, Tn) is not None
+                    assigns_factor = isinstance(s_, ast.If) and any(isinstance(b, ast.Assign) and (_is_recip(b.value, Tn) or (isinstance(b.value, ast.BinOp) and isinstance(b.value.op, ast.Div) and Tn in ast.unparse(b.value.right))) for b in ast.walk(s_))
+                    if mentions and not plain and (assigns_factor or isinstance(s_, ast.Assign)):
+                        ctx.fail("R02a", fi, s_, "the rescale decision for all sub-compartments is taken from `%s` instead of element by element: a row whose own summed outflow fraction exceeds 1 is not scaled down (or rows that need no scaling are scaled), so more people can leave a row than are in it" % ast.unparse(t_))
+                        factor = "?"
+        if factor is None:
             raise AnalysisError("R02a: %s: no rescale factor in a recognised idiom (if/else, conditional expression, np.divide(where=), np.where)" % fi.fq)
         if factor == "?":
             continue
